@@ -969,21 +969,24 @@ theorem syncAll_spec {c : Cfg} {d : SrcP} : ∀ (ws : List Nat) {w w' : World} {
               · intro q v0 hv0
                 obtain ⟨v', hv'⟩ := hb1 q v0 hv0
                 exact hb2 q v' hv'
-              · intro hok _ q r hm hdep
+              · intro hok _ q r hm hdep hns
+                have hns1 : ∀ dcl, c.decl t0 q = some dcl → skipsRhs c w1 r dcl.nestedRefs = false :=
+                  fun dcl hd => by rw [skipsRhs_congr hsrc1]; exact hns dcl hd
                 by_cases hmem : t0 ∈ rest
-                · obtain ⟨dcl, v, h1, h2', h3, h4⟩ := hc2 hok hmem q r hm hdep
+                · obtain ⟨dcl, v, h1, h2', h3, h4⟩ := hc2 hok hmem q r hm hdep hns1
                   exact ⟨dcl, v, h1, by rw [← h2']; exact (resolveRhs_congr hsrc1 r _).symm, h3, h4⟩
-                · obtain ⟨dcl, v, h1, h2', h3, h4⟩ := hc1 rfl q r hm hdep
+                · obtain ⟨dcl, v, h1, h2', h3, h4⟩ := hc1 rfl q r hm hdep hns
                   exact ⟨dcl, v, h1, h2', h3, by rw [hu2 hmem]; exact h4⟩
             · have htg1 : w1.tgts[t]? = some tg := by rw [hw1]; simp [hget, e, htg]
               obtain ⟨v2, h2, ha2, hb2, hu2, hc2⟩ := post.tg t _ htg1
               refine ⟨v2, h2, ha2, hb2, fun hn => hu2 (fun hm => hn (List.mem_cons_of_mem _ hm)), ?_⟩
-              intro hok hmem q r hm hdep
+              intro hok hmem q r hm hdep hns
               have hmem' : t ∈ rest := by
                 rcases List.mem_cons.1 hmem with e' | h'
                 · exact absurd e'.symm e
                 · exact h'
               obtain ⟨dcl, v, h1, h2', h3, h4⟩ := hc2 hok hmem' q r hm hdep
+                (fun dcl hd => by rw [skipsRhs_congr hsrc1]; exact hns dcl hd)
               exact ⟨dcl, v, h1, by rw [← h2']; exact (resolveRhs_congr hsrc1 r _).symm, h3, h4⟩
 
 theorem mapM_congr_mem {α β : Type} {f g : α → Option β} : ∀ (l : List α), (∀ a ∈ l, f a = g a) → l.mapM f = l.mapM g := by
@@ -1017,6 +1020,37 @@ theorem resolveRhs_frame {c : Cfg} {w w' : World} (r : Rhs) (n : Bool)
       simp only [if_true]
       rw [mapM_congr_mem items (fun a ha => resolveAtom_frame a (fun d hd => h d (by
         simp only [depsOf, if_true, List.mem_flatMap]; exact ⟨a, ha, hd⟩)))]
+
+theorem skipsAtom_frame {c : Cfg} {w w' : World} (a : Atom) (h : ∀ d ∈ a.deps, readSrc w' d = readSrc w d) :
+    a.skips c w' = a.skips c w := by
+  cases a with
+  | lit n => rfl
+  | par s i => rfl
+  | fn deps k rx sk =>
+    cases sk with
+    | none => rfl
+    | some b =>
+      simp only [Atom.skips]
+      rw [mapM_congr_mem deps (fun d hd => h d (by simpa [Atom.deps] using hd))]
+
+/-- whether a reference raises Skip depends only on its dependencies -/
+theorem skipsRhs_frame {c : Cfg} {w w' : World} (r : Rhs) (n : Bool)
+    (h : ∀ d ∈ depsOf r n, readSrc w' d = readSrc w d) : skipsRhs c w' r n = skipsRhs c w r n := by
+  cases r with
+  | atom a => simp only [skipsRhs]; exact skipsAtom_frame a (by simpa [depsOf] using h)
+  | cont items =>
+    simp only [skipsRhs]
+    cases n with
+    | false => rfl
+    | true =>
+      simp only [Bool.true_and]
+      have : ∀ a ∈ items, Atom.skips c w' a = Atom.skips c w a := fun a ha =>
+        skipsAtom_frame a (fun d hd => h d (by simp only [depsOf, if_true, List.mem_flatMap]; exact ⟨a, ha, hd⟩))
+      apply Bool.eq_iff_iff.2
+      simp only [List.any_eq_true]
+      constructor
+      · rintro ⟨a, ha, h⟩; exact ⟨a, ha, by rw [← this a ha]; exact h⟩
+      · rintro ⟨a, ha, h⟩; exact ⟨a, ha, by rw [this a ha]; exact h⟩
 
 theorem readSrc_set {w : World} {s i : Nat} {row : List Int} {v : Int} (hrow : w.src[s]? = some row) (d : SrcP)
     (hne : d ≠ (s, i)) : readSrc { w with src := w.src.set s (row.set i v) } d = readSrc w d := by
@@ -1108,7 +1142,7 @@ theorem srcSet_inv {c : Cfg} {s i : Nat} {v : Int} {w w' : World} {log : List En
     exact ⟨w.tgts[t], vals', by simp [hlt], rfl, h2, h3⟩
   refine ⟨?_, ?_, ?_, ?_, ?_, ?_⟩
   · -- tracks
-    intro t tg' p r dcl v0 ht hm hd hres hvalid
+    intro t tg' p r dcl v0 ht hm hd hres hsk hvalid
     obtain ⟨tg, vals', htg, e, hnondep, _⟩ := back t tg' ht
     subst e
     simp only at hm ⊢
@@ -1138,7 +1172,8 @@ theorem srcSet_inv {c : Cfg} {s i : Nat} {v : Int} {w w' : World} {log : List En
             rw [this, htg] at ht
             have hv : tg.vals = vals' := congrArg Target.vals (Option.some.inj ht)
             rw [← hv]
-            exact hi.tracks _ _ _ _ _ _ htg hm hd (by rw [← hres]; exact (resolveRhs_congr hsrc' r _).symm) hvalid
+            exact hi.tracks _ _ _ _ _ _ htg hm hd (by rw [← hres]; exact (resolveRhs_congr hsrc' r _).symm)
+              (by rw [← hsk]; exact (skipsRhs_congr hsrc' r _).symm) hvalid
           · cases hs : syncAll c (s, i) (List.map (fun x => x.fst) (List.filter (fun x => x.snd.contains i) (w.watch[s]?.getD [])))
                 { w with src := w.src.set s (row.set i v) } with
             | mk r1 q1 =>
@@ -1157,6 +1192,7 @@ theorem srcSet_inv {c : Cfg} {s i : Nat} {v : Int} {w w' : World} {log : List En
                 obtain ⟨vals2, h1, _, _, _, hpost⟩ := post.tg t tg htg
                 rw [ht] at h1; cases h1
                 obtain ⟨dcl', v', hd', hres', _, hval'⟩ := hpost rfl hin_ws p r hm hdep
+                  (fun dcl' hd' => by rw [hd] at hd'; cases hd'; rw [← hsk]; exact (skipsRhs_congr post.src r _).symm)
                 rw [hd] at hd'; cases hd'
                 rw [resolveRhs_congr post.src] at hres
                 rw [hres'] at hres; cases hres
@@ -1168,15 +1204,15 @@ theorem srcSet_inv {c : Cfg} {s i : Nat} {v : Int} {w w' : World} {log : List En
         rw [keysNodup_unique (hi.nodup _ _ htg) hm' hm] at hdep'
         exact hdep hdep'
       rw [hnondep p hnd]
-      refine hi.tracks _ _ _ _ _ _ htg hm hd ?_ hvalid
-      rw [← hres]
-      symm
-      apply resolveRhs_frame
-      intro d hdm
-      apply hread
-      intro e; subst e
-      rw [ldeps_eq hd] at hdep
-      exact hdep hdm
+      have hagree : ∀ d ∈ depsOf r dcl.nestedRefs, readSrc w' d = readSrc w d := by
+        intro d hdm
+        apply hread
+        intro e; subst e
+        rw [ldeps_eq hd] at hdep
+        exact hdep hdm
+      refine hi.tracks _ _ _ _ _ _ htg hm hd ?_ ?_ hvalid
+      · rw [← hres]; exact (resolveRhs_frame r _ hagree).symm
+      · rw [← hsk]; exact (skipsRhs_frame r _ hagree).symm
   · intro t tg' p r s' i' ht hm hdep hi' hs'
     obtain ⟨tg, vals', htg, e, _, _⟩ := back t tg' ht
     subst e
@@ -1290,7 +1326,19 @@ theorem setInst_frame {c : Cfg} {t p : Nat} {rhs : Rhs} {w w' : World} {res : Re
       simp at heq; subst heq
       split at h
       · rename_i old v rl hold hres
-        obtain ⟨v0, vals', _, _, _, hvals, hw⟩ := setCore_ok_form htg h
+        -- the values after the store (none when the reference had no value to offer)
+        have hstore : ∃ vals', (∀ q, q ≠ p → vals'[q]? = tg.vals[q]?) ∧
+            w' = applyRelink c t p rl { w with tgts := w.tgts.set t { tg with vals := vals' } } := by
+          split at h
+          · simp at h
+            exact ⟨tg.vals, fun _ _ => rfl, by rw [world_set_self w t tg htg]; exact h.1.symm⟩
+          · obtain ⟨v0, vals', _, _, _, hvals, hw⟩ := setCore_ok_form htg h
+            refine ⟨vals', ?_, hw⟩
+            intro q hq
+            rcases hvals with e | ⟨e, _⟩
+            · subst e; simp [List.getElem?_set_ne (fun e => hq e.symm)]
+            · subst e; rfl
+        obtain ⟨vals', hvals, hw⟩ := hstore
         obtain ⟨refs', watch', hform, hrl⟩ := applyRelink_form (rl := rl) (vals' := vals') htg hd
         rw [hform] at hw; subst hw
         have hget := fun t' x => tgts_set_get w.tgts t t' x tg htg
@@ -1303,9 +1351,7 @@ theorem setInst_frame {c : Cfg} {t p : Nat} {rhs : Rhs} {w w' : World} {res : Re
           | keep => simp only at hrl; rw [hrl.1]
           | drop => simp only at hrl; rw [hrl.1]; exact dictGet_dictDel_ne _ _ _ hq
           | link r => simp only at hrl; rw [hrl.1]; exact dictGet_dictSet_ne _ _ _ _ hq
-        · rcases hvals with e | ⟨e, _⟩
-          · subst e; simp [List.getElem?_set_ne (fun e => hq e.symm)]
-          · subst e; rfl
+        · exact hvals q hq
       · simp at h
     · simp at h
 
@@ -1355,11 +1401,101 @@ theorem dedupKeys_nodup : ∀ (l : List (Nat × Rhs)), ((dedupKeys l).map (·.1)
 
 /-- what the keyword loop of the constructor maintains about the instance under construction -/
 structure CtorOK (c : Cfg) (ds : List PDecl) (w : World) (vals0 : List (Option Val)) (tg : Target) : Prop where
-  links : ∀ (p : Nat) (r : Rhs), (p, r) ∈ tg.refs → ∃ d v, ds[p]? = some d ∧ d.allowRefs = true ∧
-    resolveRhs c w r d.nestedRefs = some v ∧ tg.vals[p]? = some (some v)
+  links : ∀ (p : Nat) (r : Rhs), (p, r) ∈ tg.refs → ∃ d, ds[p]? = some d ∧ d.allowRefs = true ∧
+    ∀ v, resolveRhs c w r d.nestedRefs = some v → skipsRhs c w r d.nestedRefs = false → tg.vals[p]? = some (some v)
   nodup : keysNodup tg.refs
   somes : ∀ (q : Nat) (v : Val), vals0[q]? = some (some v) → ∃ v', tg.vals[q]? = some (some v')
   len : tg.vals.length = vals0.length
+
+/-- what `resolveForSet` returns, by shape -/
+theorem resolveForSet_shape {c : Cfg} {d : PDecl} {linked : Bool} {rhs : Rhs} {w : World} {v : Option Val} {rl : Relink}
+    (hres : resolveForSet c d linked rhs w = some (v, rl)) :
+    (∀ r, rl = .link r → r = rhs ∧ d.allowRefs = true ∧ resolveRhs c w rhs d.nestedRefs = v) ∧
+    (skipsForSet c d rhs w = true → rl = .link rhs) ∧ (linked = false → rl ≠ .drop) := by
+  unfold resolveForSet at hres
+  unfold skipsForSet
+  split at hres
+  · simp at hres
+  · split at hres
+    · split at hres
+      · simp at hres; obtain ⟨_, e⟩ := hres; subst e
+        exact ⟨(fun r h => by cases h), (by simp_all), (fun _ h => by cases h)⟩
+      · simp at hres
+    · split at hres
+      · simp at hres; obtain ⟨_, e⟩ := hres
+        refine ⟨?_, by simp_all, ?_⟩
+        · intro r h; subst h; split at e <;> cases e
+        · intro hl h; subst h; subst hl; simp at e
+      · split at hres
+        · simp at hres; obtain ⟨e1, e2⟩ := hres; subst e1 e2
+          refine ⟨?_, (fun _ => rfl), (fun _ h => by cases h)⟩
+          intro r h; cases h
+          exact ⟨rfl, by simp_all, by assumption⟩
+        · simp at hres
+
+/-- the refs dict of the object under construction after a keyword with link change `rl` -/
+def nextRefs (tg : Target) (k : Nat) (rl : Relink) : List (Nat × Rhs) :=
+  match rl with
+  | .link r => tg.refs ++ [(k, r)]
+  | _ => tg.refs
+
+/-- the state of the object under construction after one more keyword -/
+theorem ctorOK_next {c : Cfg} {ds : List PDecl} {w : World} {vals0 : List (Option Val)} {tg : Target} {k : Nat} {d : PDecl}
+    {rhs : Rhs} {rl : Relink} {vals1 : List (Option Val)}
+    (hok : CtorOK c ds w vals0 tg) (hd : ds[k]? = some d) (hfreshk : ∀ r, (k, r) ∉ tg.refs)
+    (hlen : vals1.length = tg.vals.length) (hother : ∀ q, q ≠ k → vals1[q]? = tg.vals[q]?)
+    (hsome : ∀ v0, tg.vals[k]? = some (some v0) → ∃ v', vals1[k]? = some (some v'))
+    (hlink : ∀ r, rl = .link r → r = rhs ∧ d.allowRefs = true ∧
+      ∀ v, resolveRhs c w rhs d.nestedRefs = some v → skipsRhs c w rhs d.nestedRefs = false → vals1[k]? = some (some v)) :
+    CtorOK c ds w vals0 { vals := vals1, dflt := tg.dflt, refs := nextRefs tg k rl } := by
+  have hold : ∀ p r, (p, r) ∈ tg.refs → ∃ d, ds[p]? = some d ∧ d.allowRefs = true ∧
+      ∀ v, resolveRhs c w r d.nestedRefs = some v → skipsRhs c w r d.nestedRefs = false → vals1[p]? = some (some v) := by
+    intro p r hm
+    obtain ⟨d', h1, h2, h3⟩ := hok.links p r hm
+    have hne : p ≠ k := fun e => hfreshk r (by rw [← e]; exact hm)
+    exact ⟨d', h1, h2, fun v hv hs => by rw [hother p hne]; exact h3 v hv hs⟩
+  have hsomes : ∀ (q : Nat) (v0 : Val), vals0[q]? = some (some v0) → ∃ v', vals1[q]? = some (some v') := by
+    intro q v0 hv0
+    obtain ⟨v', hv'⟩ := hok.somes q v0 hv0
+    by_cases e : q = k
+    · subst e; exact hsome v' hv'
+    · exact ⟨v', by rw [hother q e]; exact hv'⟩
+  unfold nextRefs
+  cases rl with
+  | keep => exact ⟨hold, hok.nodup, hsomes, by simp [hlen, hok.len]⟩
+  | drop => exact ⟨hold, hok.nodup, hsomes, by simp [hlen, hok.len]⟩
+  | link r =>
+    obtain ⟨e, hallow, hnew⟩ := hlink r rfl
+    subst e
+    refine ⟨?_, ?_, hsomes, by simp [hlen, hok.len]⟩
+    · intro p r' hm
+      simp only [List.mem_append, List.mem_singleton] at hm
+      rcases hm with hm | e
+      · exact hold p r' hm
+      · have e1 := (Prod.mk.inj e).1; have e2 := (Prod.mk.inj e).2; subst e1 e2
+        exact ⟨d, hd, hallow, hnew⟩
+    · have := hok.nodup
+      unfold keysNodup at this ⊢
+      rw [List.map_append, List.nodup_append]
+      refine ⟨this, by simp, ?_⟩
+      intro a ha b hb
+      simp at hb; subst hb
+      intro e; subst e
+      simp only [List.mem_map] at ha
+      obtain ⟨x, hx, e⟩ := ha
+      exact hfreshk x.2 (by rw [← e]; exact hx)
+
+theorem relink_keys {tg : Target} {k : Nat} {rl : Relink} {p : Nat} {r : Rhs}
+    (hm : (p, r) ∈ nextRefs tg k rl) : (p, r) ∈ tg.refs ∨ p = k := by
+  unfold nextRefs at hm
+  cases rl with
+  | keep => exact Or.inl hm
+  | drop => exact Or.inl hm
+  | link r0 =>
+    simp only [List.mem_append, List.mem_singleton] at hm
+    rcases hm with hm | e
+    · exact Or.inl hm
+    · exact Or.inr (Prod.mk.inj e).1
 
 theorem ctorKeys_ok {c : Cfg} {ds : List PDecl} {w : World} {vals0 : List (Option Val)} :
     ∀ (kws : List (Nat × Rhs)) {tg tg' : Target}, (kws.map (·.1)).Nodup →
@@ -1376,87 +1512,50 @@ theorem ctorKeys_ok {c : Cfg} {ds : List PDecl} {w : World} {vals0 : List (Optio
     split at h
     · simp at h
     · rename_i d hd
+      have hfreshk : ∀ r, (k, r) ∉ tg.refs := fun r hm => hfresh k r hm (by simp)
+      have hfresh0 : ∀ p r, (p, r) ∈ tg.refs → p ∉ rest.map (·.1) :=
+        fun p r hp hin => hfresh p r hp (by simp [hin])
+      have hfresh1 : ∀ (rl : Relink) p r, (p, r) ∈ nextRefs tg k rl → p ∉ rest.map (·.1) := by
+        intro rl p r hm
+        rcases relink_keys hm with hp | e
+        · exact hfresh0 p r hp
+        · subst e; exact hnd.1
       split at h
       · simp at h
       · simp at h
       · rename_i v rl hres
+        obtain ⟨hshape, hskip, _⟩ := resolveForSet_shape hres
         split at h
-        · simp at h
+        · -- the reference has no value to offer yet: the link is recorded, nothing is set
+          rename_i hsk
+          have hskips : skipsRhs c w rhs d.nestedRefs = true := by
+            unfold skipsForSet at hsk; simp at hsk; exact hsk.2
+          have hstep := ctorOK_next (rl := rl) (rhs := rhs) (vals1 := tg.vals) hok hd hfreshk rfl (fun _ _ => rfl)
+            (fun v0 h0 => ⟨v0, h0⟩)
+            (fun r hr => by
+              obtain ⟨e, ha, _⟩ := hshape r hr
+              exact ⟨e, ha, fun v _ hns => by rw [hskips] at hns; cases hns⟩)
+          exact ih (tg := { vals := tg.vals, dflt := tg.dflt, refs := nextRefs tg k rl }) hnd.2 (hfresh1 rl) hlen hstep h
         · split at h
           · simp at h
-          · rename_i hvalid hro
-            have hk : k < tg.vals.length := by
-              rw [hok.len]
-              have : k < ds.length := by
-                by_cases hlt : k < ds.length
-                · exact hlt
-                · exfalso; have : ds[k]? = none := by simp; omega
-                  rw [this] at hd; cases hd
-              omega
-            have hfreshk : ∀ r, (k, r) ∉ tg.refs := fun r hm => hfresh k r hm (by simp)
-            -- the state after this keyword
-            have hold : ∀ p r, (p, r) ∈ tg.refs → ∃ d v', ds[p]? = some d ∧ d.allowRefs = true ∧
-                resolveRhs c w r d.nestedRefs = some v' ∧ (tg.vals.set k (some v))[p]? = some (some v') := by
-              intro p r hm
-              obtain ⟨d', v', h1, h2, h3, h4⟩ := hok.links p r hm
-              have hne : k ≠ p := fun e => hfreshk r (by rw [e]; exact hm)
-              exact ⟨d', v', h1, h2, h3, by rw [List.getElem?_set_ne hne]; exact h4⟩
-            have hsomes : ∀ (q : Nat) (v0 : Val), vals0[q]? = some (some v0) → ∃ v', (tg.vals.set k (some v))[q]? = some (some v') := by
-              intro q v0 hv0
-              by_cases e : k = q
-              · subst e; exact ⟨v, by simp [hk]⟩
-              · obtain ⟨v', hv'⟩ := hok.somes q v0 hv0
-                exact ⟨v', by rw [List.getElem?_set_ne e]; exact hv'⟩
-            have hfresh0 : ∀ p r, (p, r) ∈ tg.refs → p ∉ rest.map (·.1) :=
-              fun p r hp hin => hfresh p r hp (by simp [hin])
-            have plain : ∀ {tg'' : Target}, ctorKeys c ds w rest { vals := tg.vals.set k (some v), dflt := tg.dflt, refs := tg.refs } = (.ok, tg'') →
-                CtorOK c ds w vals0 tg'' ∧ tg''.dflt = tg.dflt := fun h' =>
-              ih (tg := { vals := tg.vals.set k (some v), dflt := tg.dflt, refs := tg.refs }) hnd.2 hfresh0 hlen
-                ⟨hold, hok.nodup, hsomes, by simp [hok.len]⟩ h'
-            cases rl with
-            | keep => exact plain h
-            | drop => exact plain h
-            | link r =>
-              simp only at h
-              have hstep : CtorOK c ds w vals0 { vals := tg.vals.set k (some v), dflt := tg.dflt, refs := tg.refs ++ [(k, r)] } := by
-                refine ⟨?_, ?_, hsomes, by simp [hok.len]⟩
-                · intro p r' hm
-                  simp only [List.mem_append, List.mem_singleton] at hm
-                  rcases hm with hm | e
-                  · exact hold p r' hm
-                  · have e1 := (Prod.mk.inj e).1; have e2 := (Prod.mk.inj e).2; subst e1 e2
-                    unfold resolveForSet at hres
-                    split at hres
-                    · simp at hres
-                    · split at hres
-                      · split at hres <;> simp at hres
-                      · rename_i hallow
-                        split at hres
-                        · simp at hres
-                        · split at hres
-                          · rename_i v1 hv1
-                            simp at hres
-                            obtain ⟨e1, e2⟩ := hres; subst e1 e2
-                            exact ⟨d, v1, hd, by simpa using hallow, hv1, by simp [hk]⟩
-                          · simp at hres
-                · have := hok.nodup
-                  unfold keysNodup at this ⊢
-                  rw [List.map_append, List.nodup_append]
-                  refine ⟨this, by simp, ?_⟩
-                  intro a ha b hb
-                  simp at hb; subst hb
-                  intro e; subst e
-                  simp only [List.mem_map] at ha
-                  obtain ⟨x, hx, e⟩ := ha
-                  exact hfreshk x.2 (by rw [← e]; exact hx)
-              have hfresh' : ∀ p r', (p, r') ∈ tg.refs ++ [(k, r)] → p ∉ rest.map (·.1) := by
-                intro p r' hm
-                simp only [List.mem_append, List.mem_singleton] at hm
-                rcases hm with hm | e
-                · exact hfresh0 p r' hm
-                · rw [(Prod.mk.inj e).1]; exact hnd.1
-              exact ih (tg := { vals := tg.vals.set k (some v), dflt := tg.dflt, refs := tg.refs ++ [(k, r)] })
-                hnd.2 hfresh' hlen hstep h
+          · split at h
+            · simp at h
+            · have hk : k < tg.vals.length := by
+                rw [hok.len]
+                have : k < ds.length := by
+                  by_cases hlt : k < ds.length
+                  · exact hlt
+                  · exfalso; have : ds[k]? = none := by simp; omega
+                    rw [this] at hd; cases hd
+                omega
+              have hstep := ctorOK_next (rl := rl) (rhs := rhs) (vals1 := tg.vals.set k (some v)) hok hd hfreshk (by simp)
+                (fun q hq => by rw [List.getElem?_set_ne (fun e => hq e.symm)])
+                (fun v0 _ => ⟨v, by simp [hk]⟩)
+                (fun r hr => by
+                  obtain ⟨e, ha, hv⟩ := hshape r hr
+                  exact ⟨e, ha, fun v' hv' _ => by rw [hv'] at hv; cases hv; simp [hk]⟩)
+              exact ih (tg := { vals := tg.vals.set k (some v), dflt := tg.dflt, refs := nextRefs tg k rl }) hnd.2 (hfresh1 rl)
+                hlen hstep h
 
 /-- constructing the next target — with any keyword arguments: plain values and references of
 every kind — keeps the invariant: links made by the constructor are tracked and watched -/
@@ -1496,15 +1595,17 @@ theorem construct_inv {c : Cfg} {dflt : List Val} {kws : List (Nat × Rhs)} {w w
               rw [this] at ht; cases ht
         have hdecl := fun p => decl_of_decls hds p
         refine ⟨?_, ?_, ?_, ?_, ?_, ?_⟩
-        · intro t' tg' p r d v ht hm hd hres hvalid
+        · intro t' tg' p r d v ht hm hd hres hsk hvalid
           have hres' : resolveRhs c w r d.nestedRefs = some v := by
             rw [← hres]; exact (resolveRhs_congr rfl r _).symm
+          have hsk' : skipsRhs c w r d.nestedRefs = false := by
+            rw [← hsk]; exact (skipsRhs_congr rfl r _).symm
           rcases classify t' tg' ht with ⟨_, ht'⟩ | ⟨e1, e2⟩
-          · exact hi.tracks _ _ _ _ _ _ ht' hm hd hres' hvalid
+          · exact hi.tracks _ _ _ _ _ _ ht' hm hd hres' hsk' hvalid
           · subst e1 e2
-            obtain ⟨d', v', h1, _, h3, h4⟩ := hok.links p r hm
+            obtain ⟨d', h1, _, h3⟩ := hok.links p r hm
             rw [hdecl p, h1] at hd; cases hd
-            rw [h3] at hres'; cases hres'; exact h4
+            exact h3 v hres' hsk'
         · intro t' tg' p r s i ht hm hdep hi' hs
           simp only [setupRefs_length] at hs
           rw [setupRefs_get]
@@ -1534,7 +1635,7 @@ theorem construct_inv {c : Cfg} {dflt : List Val} {kws : List (Nat × Rhs)} {w w
           rcases classify t' tg' ht with ⟨_, ht'⟩ | ⟨e1, e2⟩
           · exact hi.allow _ _ _ _ _ ht' hm hd
           · subst e1 e2
-            obtain ⟨d', v', h1, h2, _, _⟩ := hok.links p r hm
+            obtain ⟨d', h1, h2, _⟩ := hok.links p r hm
             rw [hdecl p, h1] at hd; cases hd; exact h2
         · intro t' tg' p d ht hd hc
           rcases classify t' tg' ht with ⟨_, ht'⟩ | ⟨e1, e2⟩
@@ -1640,28 +1741,50 @@ theorem setupRefs_nil {c : Cfg} {t : Nat} (watch : List (List (Nat × List Nat))
 def finish (c : Cfg) (ds : List PDecl) (w : World) (tg : Target) : World :=
   { w with tgts := w.tgts ++ [tg], watch := setupRefs c w.tgts.length (allDeps ds tg.refs) w.watch }
 
+theorem skipsForSet_congr {c : Cfg} {d : PDecl} {rhs : Rhs} {w w' : World} (h : w'.src = w.src) :
+    skipsForSet c d rhs w' = skipsForSet c d rhs w := by
+  unfold skipsForSet
+  rw [skipsRhs_congr h]
+
 set_option linter.unusedSimpArgs false in
-/-- one keyword of the constructor = one later assignment on the finished object -/
-theorem late_step {c : Cfg} {ds : List PDecl} {w : World} {tg : Target} {k : Nat} {rhs : Rhs} {d : PDecl} {v : Val}
-    {rl : Relink}
+/-- the deferred link change of a constructor keyword, carried out on the finished object -/
+theorem applyRelink_finish {c : Cfg} {ds : List PDecl} {w : World} {tg : Target} {k : Nat} {rl : Relink}
     (hds : c.decls[w.tgts.length]? = some ds)
     (hfresh : ∀ (s : Nat) (ws : List (Nat × List Nat)) (names : List Nat), w.watch[s]? = some ws → (w.tgts.length, names) ∉ ws)
-    (hd : ds[k]? = some d) (hk : k < tg.vals.length) (hkd : k < tg.dflt.length)
-    (hnew : ∀ r, (k, r) ∉ tg.refs)
-    (hres : resolveForSet c d false rhs w = some (some v, rl)) (hvalid : d.valid v = true)
-    (hro : d.readonly = false) (hconst : d.constant = false) :
-    (step c (.set w.tgts.length k rhs) (finish c ds w tg)).1 = .ok ∧
-    (step c (.set w.tgts.length k rhs) (finish c ds w tg)).2.1 =
-      finish c ds w { tg with vals := tg.vals.set k (some v),
-                              refs := (match rl with | .link r => tg.refs ++ [(k, r)] | _ => tg.refs) } := by
+    (hnew : ∀ r, (k, r) ∉ tg.refs) (hnd : rl ≠ .drop) :
+    applyRelink c w.tgts.length k rl (finish c ds w tg) = finish c ds w { tg with refs := nextRefs tg k rl } := by
+  cases rl with
+  | keep => simp [applyRelink, nextRefs]
+  | drop => exact absurd rfl hnd
+  | link r =>
+    have hset' : dictSet tg.refs k r = tg.refs ++ [(k, r)] := by
+      unfold dictSet
+      have : tg.refs.any (fun x => x.1 == k) = false := by
+        simp only [List.any_eq_false]
+        intro x hx e
+        exact hnew x.2 (by rw [← (by simpa using e : x.1 = k)]; exact hx)
+      simp [this]
+    simp only [applyRelink, updateRef, finish, nextRefs, List.getElem?_append_right (Nat.le_refl _), Nat.sub_self,
+      List.getElem?_cons_zero, hds, hset', append_set_last, List.length_append, List.length_singleton]
+    simp only [List.getElem?_append_right (Nat.le_refl _), Nat.sub_self, List.getElem?_cons_zero,
+      unwatchAll_setupRefs_fresh hfresh, append_set_last]
+
+/-- common facts about assigning to parameter k of the finished object -/
+theorem late_pre {c : Cfg} {ds : List PDecl} {w : World} {tg : Target} {k : Nat} {rhs : Rhs} {d : PDecl} {v : Val} {rl : Relink}
+    (hds : c.decls[w.tgts.length]? = some ds) (hd : ds[k]? = some d) (hk : k < tg.vals.length) (hkd : k < tg.dflt.length)
+    (hnew : ∀ r, (k, r) ∉ tg.refs) (hres : resolveForSet c d false rhs w = some (some v, rl)) :
+    c.decl w.tgts.length k = some d ∧ Op.supported c (.set w.tgts.length k rhs) = true ∧
+    (finish c ds w tg).tgts[w.tgts.length]? = some tg ∧ ¬ k ≥ nparams c w.tgts.length ∧
+    (∃ old, tg.read k = some old) ∧
+    resolveForSet c d (dictGet tg.refs k).isSome rhs (finish c ds w tg) = some (some v, rl) := by
   have hdecl : c.decl w.tgts.length k = some d := by rw [decl_of_decls hds]; exact hd
   have hkds : k < ds.length := by
     by_cases hlt : k < ds.length
     · exact hlt
     · exfalso; have : ds[k]? = none := by simp; omega
       rw [this] at hd; cases hd
-  have hsup : Op.supported c (.set w.tgts.length k rhs) = true := by
-    simp only [Op.supported, keySupported, hdecl]
+  refine ⟨hdecl, ?_, by simp [finish], by simp [nparams, hds]; exact hkds, ?_, ?_⟩
+  · simp only [Op.supported, keySupported, hdecl]
     unfold resolveForSet at hres
     split at hres
     · simp at hres
@@ -1671,24 +1794,35 @@ theorem late_step {c : Cfg} {ds : List PDecl} {w : World} {tg : Target} {k : Nat
         · rename_i hl; simp_all
         · simp at hres
       · rename_i ha; simp_all
-  have htg : (finish c ds w tg).tgts[w.tgts.length]? = some tg := by simp [finish]
-  have hnp : ¬ k ≥ nparams c w.tgts.length := by simp [nparams, hds]; exact hkds
-  have hread : ∃ old, tg.read k = some old := by
-    unfold Target.read
+  · unfold Target.read
     cases hv : tg.vals[k]? with
     | none => exfalso; simp at hv; omega
     | some x =>
       cases x with
       | some v0 => exact ⟨v0, rfl⟩
       | none => exact ⟨tg.dflt[k], by simp [hkd]⟩
-  obtain ⟨old, hold⟩ := hread
-  have hnone : dictGet tg.refs k = none := dictGet_none_iff.2 hnew
-  have hres' : resolveForSet c d (dictGet tg.refs k).isSome rhs (finish c ds w tg) = some (some v, rl) := by
-    rw [hnone, resolveForSet_congr (w := w) (by simp [finish])]; exact hres
+  · rw [dictGet_none_iff.2 hnew, resolveForSet_congr (w := w) (by simp [finish])]; exact hres
+
+set_option linter.unusedSimpArgs false in
+/-- one keyword of the constructor = one later assignment on the finished object -/
+theorem late_step {c : Cfg} {ds : List PDecl} {w : World} {tg : Target} {k : Nat} {rhs : Rhs} {d : PDecl} {v : Val}
+    {rl : Relink}
+    (hds : c.decls[w.tgts.length]? = some ds)
+    (hfresh : ∀ (s : Nat) (ws : List (Nat × List Nat)) (names : List Nat), w.watch[s]? = some ws → (w.tgts.length, names) ∉ ws)
+    (hd : ds[k]? = some d) (hk : k < tg.vals.length) (hkd : k < tg.dflt.length)
+    (hnew : ∀ r, (k, r) ∉ tg.refs)
+    (hres : resolveForSet c d false rhs w = some (some v, rl)) (hns : skipsForSet c d rhs w = false)
+    (hvalid : d.valid v = true) (hro : d.readonly = false) (hconst : d.constant = false) :
+    (step c (.set w.tgts.length k rhs) (finish c ds w tg)).1 = .ok ∧
+    (step c (.set w.tgts.length k rhs) (finish c ds w tg)).2.1 =
+      finish c ds w { tg with vals := tg.vals.set k (some v), refs := nextRefs tg k rl } := by
+  obtain ⟨hdecl, hsup, htg, hnp, ⟨old, hold⟩, hres'⟩ := late_pre (tg := tg) hds hd hk hkd hnew hres
+  have hns' : skipsForSet c d rhs (finish c ds w tg) = false := by
+    rw [skipsForSet_congr (w := w) (by simp [finish])]; exact hns
   have hset : setInst c w.tgts.length k rhs (finish c ds w tg) =
       (.ok, applyRelink c w.tgts.length k rl (store w.tgts.length k v (finish c ds w tg)), [(k, v)]) := by
     unfold setInst
-    simp only [htg, hdecl, hold, hres']
+    simp only [htg, hdecl, hold, hres', hns']
     unfold setCore
     simp [hvalid, hro, hconst]
   have hstep : step c (.set w.tgts.length k rhs) (finish c ds w tg) =
@@ -1702,31 +1836,34 @@ theorem late_step {c : Cfg} {ds : List PDecl} {w : World} {tg : Target} {k : Nat
   have hstore : store w.tgts.length k v (finish c ds w tg) = finish c ds w { tg with vals := tg.vals.set k (some v) } := by
     simp [store, htg, World.setTgt, finish, append_set_last]
   rw [hstore]
-  -- which link change a constructor keyword can cause
-  unfold resolveForSet at hres
-  split at hres
-  · simp at hres
-  · split at hres
-    · split at hres
-      · simp at hres; obtain ⟨_, e⟩ := hres; subst e; simp [applyRelink]
-      · simp at hres
-    · split at hres
-      · simp at hres; obtain ⟨_, e⟩ := hres; subst e; simp [applyRelink]
-      · split at hres
-        · simp at hres
-          obtain ⟨_, e⟩ := hres; subst e
-          have hset' : dictSet tg.refs k rhs = tg.refs ++ [(k, rhs)] := by
-            unfold dictSet
-            have : tg.refs.any (fun x => x.1 == k) = false := by
-              simp only [List.any_eq_false]
-              intro x hx e
-              exact hnew x.2 (by rw [← (by simpa using e : x.1 = k)]; exact hx)
-            simp [this]
-          simp only [applyRelink, updateRef, finish, List.getElem?_append_right (Nat.le_refl _), Nat.sub_self,
-            List.getElem?_cons_zero, hds, hset', append_set_last, List.length_append, List.length_singleton]
-          simp only [List.getElem?_append_right (Nat.le_refl _), Nat.sub_self, List.getElem?_cons_zero,
-            unwatchAll_setupRefs_fresh hfresh, append_set_last]
-        · simp at hres
+  exact applyRelink_finish (tg := { tg with vals := tg.vals.set k (some v) }) hds hfresh hnew
+    ((resolveForSet_shape hres).2.2 rfl)
+
+set_option linter.unusedSimpArgs false in
+/-- … and a keyword whose reference has no value to offer yet (Skip) = the later assignment of it:
+only the link is made -/
+theorem late_step_skip {c : Cfg} {ds : List PDecl} {w : World} {tg : Target} {k : Nat} {rhs : Rhs} {d : PDecl} {v : Val}
+    {rl : Relink}
+    (hds : c.decls[w.tgts.length]? = some ds)
+    (hfresh : ∀ (s : Nat) (ws : List (Nat × List Nat)) (names : List Nat), w.watch[s]? = some ws → (w.tgts.length, names) ∉ ws)
+    (hd : ds[k]? = some d) (hk : k < tg.vals.length) (hkd : k < tg.dflt.length)
+    (hnew : ∀ r, (k, r) ∉ tg.refs)
+    (hres : resolveForSet c d false rhs w = some (some v, rl)) (hsk : skipsForSet c d rhs w = true) :
+    (step c (.set w.tgts.length k rhs) (finish c ds w tg)).1 = .ok ∧
+    (step c (.set w.tgts.length k rhs) (finish c ds w tg)).2.1 = finish c ds w { tg with refs := nextRefs tg k rl } := by
+  obtain ⟨hdecl, hsup, htg, hnp, ⟨old, hold⟩, hres'⟩ := late_pre (tg := tg) hds hd hk hkd hnew hres
+  have hsk' : skipsForSet c d rhs (finish c ds w tg) = true := by
+    rw [skipsForSet_congr (w := w) (by simp [finish])]; exact hsk
+  have hset : setInst c w.tgts.length k rhs (finish c ds w tg) =
+      (.ok, applyRelink c w.tgts.length k rl (finish c ds w tg), []) := by
+    unfold setInst
+    simp only [htg, hdecl, hold, hres', hsk', if_true]
+  have hstep : step c (.set w.tgts.length k rhs) (finish c ds w tg) =
+      (.ok, applyRelink c w.tgts.length k rl (finish c ds w tg), []) := by
+    unfold step
+    simp [hsup, hnp, hset]
+  rw [hstep]
+  exact ⟨rfl, applyRelink_finish hds hfresh hnew ((resolveForSet_shape hres).2.2 rfl)⟩
 
 theorem late_loop {c : Cfg} {ds : List PDecl} {w : World}
     (hds : c.decls[w.tgts.length]? = some ds)
@@ -1753,49 +1890,36 @@ theorem late_loop {c : Cfg} {ds : List PDecl} {w : World}
         · exact hlt
         · exfalso; have : ds[k]? = none := by simp; omega
           rw [this] at hd; cases hd
+      have hnew : ∀ r, (k, r) ∉ tg.refs := fun r hm => hfr k r hm (by simp)
+      have hfree' : ∀ kv ∈ rest, ∀ d, ds[kv.1]? = some d → d.constant = false ∧ d.readonly = false :=
+        fun kv hkv => hfree kv (List.mem_cons_of_mem _ hkv)
+      have hfr1 : ∀ (rl : Relink) k' r', (k', r') ∈ nextRefs tg k rl → k' ∉ rest.map (·.1) := by
+        intro rl k' r' hm
+        rcases relink_keys hm with hp | e
+        · intro hin; exact hfr k' r' hp (by simp [hin])
+        · subst e; exact hnd.1
       split at h
       · simp at h
       · simp at h
       · rename_i v rl hres
+        simp only [List.map_cons, runOps]
         split at h
-        · simp at h
-        · split at h
+        · rename_i hsk
+          have hstep := late_step_skip (tg := tg) hds hfresh hd (by omega) (by omega) hnew hres hsk
+          rw [hstep.2]
+          exact ih { vals := tg.vals, dflt := tg.dflt, refs := nextRefs tg k rl } tgN hnd.2 (hfr1 rl) hfree' hlv hld h
+        · rename_i hns
+          split at h
           · simp at h
-          · rename_i hvalid hro
-            obtain ⟨hc, _⟩ := hfree (k, rhs) (List.mem_cons_self ..) d hd
-            have hnew : ∀ r, (k, r) ∉ tg.refs := fun r hm => hfr k r hm (by simp)
-            have hfr0 : ∀ k' r', (k', r') ∈ tg.refs → k' ∉ rest.map (·.1) :=
-              fun k' r' hp hin => hfr k' r' hp (by simp [hin])
-            have hfree' : ∀ kv ∈ rest, ∀ d, ds[kv.1]? = some d → d.constant = false ∧ d.readonly = false :=
-              fun kv hkv => hfree kv (List.mem_cons_of_mem _ hkv)
-            simp only [List.map_cons, runOps]
-            cases rl with
-            | keep =>
-              have hstep := late_step (tg := tg) hds hfresh hd (by omega) (by omega) hnew hres (by simpa using hvalid)
-                (by simpa using hro) hc
-              simp only at hstep h
+          · split at h
+            · simp at h
+            · rename_i hvalid hro
+              obtain ⟨hc, _⟩ := hfree (k, rhs) (List.mem_cons_self ..) d hd
+              have hstep := late_step (tg := tg) hds hfresh hd (by omega) (by omega) hnew hres (by simpa using hns)
+                (by simpa using hvalid) (by simpa using hro) hc
               rw [hstep.2]
-              exact ih { vals := tg.vals.set k (some v), dflt := tg.dflt, refs := tg.refs } tgN hnd.2 hfr0 hfree'
+              exact ih { vals := tg.vals.set k (some v), dflt := tg.dflt, refs := nextRefs tg k rl } tgN hnd.2 (hfr1 rl) hfree'
                 (by simpa using hlv) hld h
-            | drop =>
-              have hstep := late_step (tg := tg) hds hfresh hd (by omega) (by omega) hnew hres (by simpa using hvalid)
-                (by simpa using hro) hc
-              simp only at hstep h
-              rw [hstep.2]
-              exact ih { vals := tg.vals.set k (some v), dflt := tg.dflt, refs := tg.refs } tgN hnd.2 hfr0 hfree'
-                (by simpa using hlv) hld h
-            | link r0 =>
-              have hstep := late_step (tg := tg) hds hfresh hd (by omega) (by omega) hnew hres (by simpa using hvalid)
-                (by simpa using hro) hc
-              simp only at hstep h
-              rw [hstep.2]
-              refine ih { vals := tg.vals.set k (some v), dflt := tg.dflt, refs := tg.refs ++ [(k, r0)] } tgN hnd.2 ?_ hfree'
-                (by simpa using hlv) hld h
-              intro k' r' hm
-              simp only [List.mem_append, List.mem_singleton] at hm
-              rcases hm with hm | e
-              · exact hfr0 k' r' hm
-              · rw [(Prod.mk.inj e).1]; exact hnd.1
 
 theorem ctor_late_equiv {c : Cfg} {dflt : List Val} {kws : List (Nat × Rhs)} {w w1 : World}
     (hfresh : ∀ (s : Nat) (ws : List (Nat × List Nat)) (names : List Nat), w.watch[s]? = some ws → (w.tgts.length, names) ∉ ws)
